@@ -120,7 +120,7 @@ H_LETTERS = ["add0", "add1", "add2", "add_bad", "freeze", "use_monitor", "use_so
              "index_stranger", "index_bad"]
 
 
-def h_execute(history):
+def h_execute(history, parent_key=None):
     from amaranth_soc import event
     srcs = [event.Source(path=(f"s{k}",)) for k in range(3)]
     stranger = event.Source(path=("x",))
